@@ -10,6 +10,8 @@ mod c11_reassembly;
 mod c12_modcmp;
 mod c15_ipgen;
 mod codecs;
+mod tcb_bench;
+mod tcb_checks;
 
 use engine::*;
 use std::sync::Arc;
@@ -32,7 +34,10 @@ fn parts_for(id: &str) -> Option<Vec<Part>> {
         "C08" => vec![part(codecs::Codecs, 600_000, 12_000_000)],
         "C10" => vec![part(c10_fragment::Fragmentation, 150_000, 3_000_000)],
         "C11" => vec![part(c11_reassembly::ReassemblyHistories, 100_000, 2_000_000)],
-        "C12" => vec![part(c12_modcmp::ModCmpLaws, 200_000, 4_000_000)],
+        "C01" => vec![part(tcb_checks::ReliableStream, 40_000, 3_000_000)],
+        "C03" => vec![part(tcb_checks::OpenClose, 40_000, 3_000_000)],
+        "C12" => vec![part(c12_modcmp::ModCmpLaws, 200_000, 4_000_000), part(tcb_checks::IsnIndependence, 20_000, 1_500_000)],
+        "C17" => vec![part(tcb_checks::HostileSegments, 60_000, 4_000_000)],
         "C14" => vec![part(codecs::DecodersNoPanic, 1_000_000, 20_000_000)],
         "C15" => vec![part(c15_ipgen::IpGenHistories, 300_000, 6_000_000)],
         "C18" => vec![part(codecs::Codecs, 400_000, 8_000_000), part(codecs::CorruptionRejected, 400_000, 8_000_000)],
